@@ -15,7 +15,7 @@ Init == prev = Empty /\ stair = "STAIR" /\ err = "" /\ gen = "init"
 
 Circle ==
   \E cls \in 1..9, finish \in BOOLEAN, clap \in BOOLEAN, cd \in 0..5, x0 \in XCols :
-    LET x == [prev |-> prev, stair |-> stair, ct |-> HitFlags(cls, stair, finish, clap), finish |-> finish, clap |-> clap, cd |-> cd, x0 |-> x0]
+    LET x == [prev |-> prev, stair |-> stair, ct |-> HitFlags(cls, stair, finish, clap), finish |-> finish, clap |-> clap, cd |-> cd, x0 |-> x0, obs |-> <<>>]
     IN /\ LET b == HitBranch(x) IN                 \* inputs the selected branch does not read are fixed
             /\ b \notin {"keep_single", "mirror", "random"} => x0 = CHOOSE c \in XCols : \A c2 \in XCols : c <= c2
             /\ b \notin {"mirror", "random"} => cd = 0
@@ -30,7 +30,7 @@ Slider ==
     /\ zero => seg = 0
     /\ long => seg = 7                       \* 4000 ms need long segments at the span counts explored here
     /\ LET y == [prev |-> prev, low |-> low, span |-> span, seg |-> seg, long |-> long, cd |-> cd, x0 |-> x0,
-                 dbl |-> dbl, head |-> head, exact |-> exact, zero |-> zero]
+                 dbl |-> dbl, head |-> head, exact |-> exact, zero |-> zero, obs |-> <<>>]
        IN /\ LET b == PathBranch(y) IN              \* inputs the selected branch does not read are fixed
                /\ b # "nrandom" => ~low /\ ~dbl
                /\ b # "holdnormal" => ~head
